@@ -111,8 +111,13 @@ def gen_doc(r):
     fields = [["root", root_v]]
     if r.random() < 0.4:
         fields.append(["version", r.choice(["1.0", "1.1"])])
-    if r.random() < 0.3:
-        fields.append(["encoding", r.choice(["utf-8", "UTF-8"])])
+    x = r.random()
+    if x < 0.3:
+        fields.append(["encoding", r.choice(["utf-8", "UTF-8", "Utf-8"])])
+    elif x < 0.38:
+        # an encoding other than UTF-8: either an error, or bytes that really are in that encoding (the tree a parser
+        # reads must be the one described either way)
+        fields.append(["encoding", r.choice(["ISO-8859-1", "latin1", "us-ascii", "windows-1252", "UTF-16", "Shift_JIS"])])
     if r.random() < 0.3:
         fields.append(["standalone", r.random() < 0.5])
     r.shuffle(fields)
@@ -278,6 +283,10 @@ def judge(probe, v, model, res, route="convert-request"):
         res.count("crash-left-to-C04")
         return
     if not rr.get("ok"):
+        enc = [x[1] for x in v["T"] if x[0] == "encoding"]
+        if enc and isinstance(enc[0], str) and enc[0].lower() != "utf-8":
+            res.count("declaration-with-another-encoding-rejected")
+            return
         res.violation(["well-formed-document-rejected", cls(rr.get("err", ""))], witness, {"err": rr.get("err", "")[:200]})
         return
     data = core.b64d(rr["b64"])
@@ -346,7 +355,10 @@ def task(args):
                         data = open(tp.path("f.xml"), "rb").read()
                     except OSError:
                         data = None
-                    if ev["exit"] != 0 or data is None:
+                    enc = [x[1] for x in v["T"] if x[0] == "encoding"]
+                    if (ev["exit"] != 0 or data is None) and enc and isinstance(enc[0], str) and enc[0].lower() != "utf-8":
+                        res.count("declaration-with-another-encoding-rejected")
+                    elif ev["exit"] != 0 or data is None:
                         res.violation(["out-xml-failed"], {"value": v, "route": "out-statement"}, {"stderr": ev["stderr"][:300]})
                     else:
                         judge_bytes(data, model, res, {"value": v, "route": "out-statement"})
